@@ -338,6 +338,140 @@ def h13_int_cast_of_selector(ctx, tk, rule, funcs):
                        "`%s`: a boolean mask passed as a Python list becomes the positions 0 and 1" % (c,), node=c.node, engine="KB")
 
 
+PY_TYPE_NAMES = {"bool", "int", "float", "complex", "object", "str"}
+
+
+def _dtype_instance_evidence(t, f, tk):
+    """True when the term certainly denotes an np.dtype *instance*: x.dtype, np.dtype(...), or a parameter
+    that receives such a value at some call site"""
+    for a in alts(t):
+        if a.k == "attr" and a.a[1] == "dtype":
+            return True
+        if a.k == "call" and (attr_chain(a.a[0]) or ("",))[-1] in ("dtype", "result_type", "promote_types"):
+            return True
+        if a.k == "param" and a.a[0] in f.params:
+            i = f.params.index(a.a[0])
+            for cfa, c in tk.R.call_sites(f):
+                args = list(c.a[1])
+                off = 1 if (f.cls is not None and not f.is_staticmethod and c.a[0].k == "attr") else 0
+                j = i - off
+                arg = args[j] if 0 <= j < len(args) else dict(c.a[2]).get(a.a[0])
+                if arg is not None and any(x.k == "attr" and x.a[1] == "dtype" for x in alts(arg)):
+                    return True
+    return False
+
+
+def h14_dtype_identity(ctx, tk, rule, funcs):
+    """`d is bool` with d an np.dtype instance is always False (np.dtype(bool) == bool is True, identity is not)"""
+    for f in funcs:
+        fa = ctx.fa(f)
+        seen = set()
+        for n in fa.cfg.nodes:
+            if n.ast is None:
+                continue
+            for e in _exprs(n) if n.kind == "stmt" else ([n.ast] if isinstance(n.ast, ast.expr) else []):
+                for x in ast.walk(e):
+                    if not (isinstance(x, ast.Compare) and len(x.ops) == 1 and isinstance(x.ops[0], (ast.Is, ast.IsNot))):
+                        continue
+                    if id(x) in seen:
+                        continue
+                    l, r = x.left, x.comparators[0]
+                    for subj, ty in ((l, r), (r, l)):
+                        tn = ty.id if isinstance(ty, ast.Name) else (ty.attr if isinstance(ty, ast.Attribute) else None)
+                        if tn is None or not (tn in PY_TYPE_NAMES or tn in npkb.ISSUBDTYPE):
+                            continue
+                        if isinstance(ty, ast.Constant):
+                            continue
+                        st = fa.term(subj, n)
+                        if _dtype_instance_evidence(st, f, tk):
+                            seen.add(id(x))
+                            ctx.violated(rule, f, "a dtype is compared with a type by equality (np.dtype(bool) == bool), never by identity",
+                                         "`%s`: an np.dtype instance is never the type object itself, so the test is constantly %s" % (
+                                             ast.unparse(x), "False" if isinstance(x.ops[0], ast.Is) else "True"), node=x, engine="KB")
+
+
+def h15_astype_none(ctx, tk, rule, funcs):
+    """x.astype(p) where p may be None: astype(None) converts to float64 (np.dtype(None) is float64)"""
+    for f in funcs:
+        fa = ctx.fa(f)
+        for n, c in find_calls(fa, lambda c: c.a[0].k == "attr" and c.a[0].a[1] == "astype" and c.a[1]):
+            dt = c.a[1][0]
+            for a in alts(dt):
+                if a.k == "param" and a.a[0] in f.defaults and isinstance(f.defaults[a.a[0]], ast.Constant) and f.defaults[a.a[0]].value is None:
+                    guarded = any(t.k == "cmp" and t.a[1].k == "param" and t.a[1].a[0] == a.a[0] and t.a[0] in ("is", "is not", "==", "!=")
+                                  for t, truth, _ in facts_at(fa, n))
+                    ctx.decide(rule, f, "a dtype argument that defaults to None is not handed to astype() unguarded", True if guarded else False,
+                               "`%s`: with %s=None (the default) astype converts to float64 instead of keeping the element type" % (c, a.a[0]),
+                               node=c.node, engine="KB")
+                    break
+
+
+def h16_initial_in_extremum(ctx, tk, rule, funcs):
+    """max/min with a constant `initial`: the constant takes part in the comparison"""
+    for f in funcs:
+        fa = ctx.fa(f)
+        for n, c in find_calls(fa, lambda c: (np_call(c, {"max", "min", "amax", "amin"}) or (c.a[0].k == "attr" and c.a[0].a[1] in ("max", "min"))) and "initial" in dict(c.a[2])):
+            v = dict(c.a[2])["initial"]
+            if all(a.k == "const" and isinstance(a.a[0], (int, float)) and not isinstance(a.a[0], bool) for a in alts(v)):
+                ctx.violated(rule, f, "an extremum is taken over the data alone",
+                             "`%s`: the constant `initial` competes with the data (a maximum of all-negative values comes back as %s)" % (c, v), node=c.node, engine="KB")
+
+
+def h17_tolerance_as_equality(ctx, tk, rule, funcs):
+    """np.isclose / allclose deciding which elements are merged, dropped or indexed: values within the
+    tolerance but different are treated as the same"""
+    for f in funcs:
+        fa = ctx.fa(f)
+        for n, c in find_calls(fa, lambda c: np_call(c, {"isclose"})):
+            # used as data-structure decision: operand of flatnonzero / nonzero / where / delete / boolean index
+            used = False
+            for m in fa.cfg.stmts():
+                for e in _exprs(m):
+                    tm = fa.term(e, m)
+                    for x in walk(tm):
+                        if x.k == "call" and np_call(x, {"flatnonzero", "nonzero", "delete", "where", "argmax", "cumsum"}) and any(y == c for a in x.a[1] for y in walk(a)):
+                            used = True
+                        if x.k == "sub" and any(y == c for y in walk(x.a[1])):
+                            used = True
+            if used:
+                ctx.violated(rule, f, "elements are merged / selected by exact comparison",
+                             "`%s` selects positions: values that differ by less than the tolerance (1e-5 relative: 100000 and 100001) are treated as equal" % (c,),
+                             node=c.node, engine="KB")
+
+
+def h18_cross_operand_store(ctx, tk, rule, funcs):
+    """d = copy of operand B;  d[mask] = values of operand A: the store casts A's values to B's dtype (no promotion),
+    where the numpy function being reproduced (np.where, np.concatenate, ...) promotes to the common type"""
+    from .opflow import value_roots
+    for f in funcs:
+        fa = ctx.fa(f)
+        for n in fa.cfg.stmts():
+            if not (n.kind == "stmt" and isinstance(n.ast, ast.Assign) and len(n.ast.targets) == 1 and isinstance(n.ast.targets[0], ast.Subscript)
+                    and isinstance(n.ast.targets[0].value, ast.Name)):
+                continue
+            base = fa.term(n.ast.targets[0].value, n)
+            val = fa.term(n.ast.value, n)
+            pa = {r[1] for r in value_roots(val) if r[0] == "param"}
+            idx_roots = {r[1] for r in value_roots(fa.term(n.ast.targets[0].slice, n)) if r[0] == "param"}
+            bad = []
+            for a in alts(base):
+                # a typed copy of one operand: x.copy() / np.array(x) / np.copy(x) / x.astype(x.dtype) ... without any promotion
+                is_copy = (a.k == "call" and a.a[0].k == "attr" and a.a[0].a[1] == "copy") or np_call(a, {"array", "copy"})
+                if not is_copy:
+                    continue
+                if any(x.k == "call" and (attr_chain(x.a[0]) or ("",))[-1] in ("result_type", "promote_types", "astype", "where", "common_type") for x in walk(a)):
+                    continue
+                pb = {r[1] for r in value_roots(a) if r[0] == "param"}
+                extra = pa - pb - idx_roots
+                if pb and extra and not (f.params and f.params[0] in ("self",) and f.params[0] in pb):
+                    bad.append((a, sorted(extra), sorted(pb)))
+            if bad:
+                a, extra, pb = bad[0]
+                ctx.violated(rule, f, "a result combining two operands has their common element type",
+                             "`%s` stores values of `%s` into a copy of `%s` (%s): the store casts to the copy's dtype, so float values are truncated / "
+                             "wide integers wrap where numpy's own function promotes" % (ast.unparse(n.ast), ", ".join(extra), ", ".join(pb), a), node=n.ast, engine="KB")
+
+
 def generic(ctx, tk, rule, funcs, skip=()):
     """all deviance-form hazard rules over a property's function scope"""
     fs = [f for f in funcs if f.qual not in skip]
@@ -354,3 +488,8 @@ def generic(ctx, tk, rule, funcs, skip=()):
     h10_counting_scatter(ctx, tk, rule + "/H10", fs)
     h11_isinstance_int(ctx, tk, rule + "/H11", fs)
     h13_int_cast_of_selector(ctx, tk, rule + "/H13", fs)
+    h14_dtype_identity(ctx, tk, rule + "/H14", fs)
+    h15_astype_none(ctx, tk, rule + "/H15", fs)
+    h16_initial_in_extremum(ctx, tk, rule + "/H16", fs)
+    h17_tolerance_as_equality(ctx, tk, rule + "/H17", fs)
+    h18_cross_operand_store(ctx, tk, rule + "/H18", fs)
